@@ -158,15 +158,15 @@ class Verifier:
                     except Exception:
                         pass
             n_if = sum(1 for n_ in ast.walk(func.node) if isinstance(n_, ast.If))
+            missing_anchor = None
             for h_ in contract.stmt_hints:
                 if h_[0].startswith('@if') and int(h_[0][3:]) >= n_if:
-                    res.error = 'at_stmt anchor not found in %s: %r' % (contract.qualname, h_[0])
-                    res.error_kind = 'shape'
-                    return res
+                    missing_anchor = 'at_stmt anchor not found in %s: %r' % (contract.qualname, h_[0])
                 if not h_[0].startswith('@') and h_[0] not in texts:
-                    res.error = 'at_stmt anchor not found in %s: %r' % (contract.qualname, h_[0][:60])
-                    res.error_kind = 'shape'
-                    return res
+                    missing_anchor = 'at_stmt anchor not found in %s: %r' % (contract.qualname, h_[0][:60])
+            # The remaining obligations (postconditions, invariants, termination) are still generated: if one of them
+            # fails the function is a violation; only if all of them hold is the lost anchor reported (undecided).
+            res.missing_anchor = missing_anchor
         is_lemma = self.reg.is_lemma(func) if self.reg.is_spec_module(func.module) else False
         stack = [[]]
         seen_obl = {}
@@ -224,6 +224,10 @@ class Verifier:
             cache[key] = ob
         res.time = time.time() - t0
         res.inlined = sorted(self.reg.inlined)
+        if getattr(res, 'missing_anchor', None) and res.error is None and \
+                all(ob.verdict == 'proved' for ob in res.obligations):
+            res.error = res.missing_anchor
+            res.error_kind = 'shape'
         return res
 
     # ------------------------------------------------------------------
